@@ -12,6 +12,7 @@
 #define _GNU_SOURCE
 #include "sim.h"
 
+#include <stddef.h>
 #include <string.h>
 #include <sys/mman.h>
 #include <ucontext.h>
@@ -80,6 +81,7 @@ static void init(void)
 }
 
 static ptctx_t real_c, ref_c;
+static ptctx_t real_alt, ref_alt;	/* the second instance (no trace of its own) */
 
 static void run(void)
 {
@@ -91,6 +93,15 @@ static void run(void)
 	real_c.env = ref_c.env = sim_choose(16);
 	real_c.v[0] = ref_c.v[0] = sim_choose(8);
 	real_c.v[1] = ref_c.v[1] = sim_choose(8);
+	memset(&real_alt, 0, offsetof(ptctx_t, trace));
+	memset(&ref_alt, 0, offsetof(ptctx_t, trace));
+	real_c.sink = real_alt.sink = &real_c;
+	ref_c.sink = ref_alt.sink = &ref_c;
+	real_c.alt = &real_alt;
+	ref_c.alt = &ref_alt;
+	real_alt.env = ref_alt.env = real_c.env;
+	real_alt.v[0] = ref_alt.v[0] = sim_choose(8);
+	real_alt.v[1] = ref_alt.v[1] = sim_choose(8);
 	co_live = false;
 	ref_noblock = 0;
 	sim_ev("hdr", prog, real_c.env, real_c.v[0] * 8 + real_c.v[1]);
@@ -105,10 +116,12 @@ static void run(void)
 			uint32_t bit = 1u << sim_choose(4);
 			real_c.env ^= bit;
 			ref_c.env ^= bit;
+			real_alt.env = ref_alt.env = real_c.env;
 			sim_fault(F_ENV_FLIP);
 		} else if (f == 3) {
 			uint32_t e = sim_choose(16);
 			real_c.env = ref_c.env = e;
+			real_alt.env = ref_alt.env = e;
 			sim_fault(F_ENV_FLIP);
 		} else {
 			sim_fault(F_SPURIOUS_RESUME);
@@ -142,7 +155,9 @@ static void run(void)
 				 "program %u, invocation %u executed %u effect(s), the sequential reference %u (next tag %u)",
 				 prog, resumptions, nr, nm, nr < nm ? ref_c.trace[t0m + nr].tag : real_c.trace[t0r + nm].tag);
 		if (real_c.v[0] != ref_c.v[0] || real_c.v[1] != ref_c.v[1] ||
-		    memcmp(real_c.lc, ref_c.lc, sizeof(real_c.lc)))
+		    memcmp(real_c.lc, ref_c.lc, sizeof(real_c.lc)) ||
+		    real_alt.v[0] != ref_alt.v[0] || real_alt.v[1] != ref_alt.v[1] ||
+		    memcmp(real_alt.lc, ref_alt.lc, sizeof(real_alt.lc)))
 			sim_fail(NULL, "VARIABLES", "program %u, invocation %u: persistent state differs after the invocation", prog, resumptions);
 		if (real_c.pt[1] || real_c.pt[2] || real_c.pt[3])
 			if (rs == 0 || rs == 1)
